@@ -104,7 +104,8 @@ def run(ctx):
                 fid = "column-order-after-group-take"
             ctx.oracle_failure(fid, f"result columns {names} but the final frame is {expect}",
                                {"prql": c.prql, "target": target, "sql": a["sql"], "observed_columns": names, "expected_columns": expect,
-                                "rq_columns": frame, "db": c.db, "schema": c.schema_list, "class": fid})
+                                "rq_columns": frame, "db": c.db, "schema": c.schema_list, "class": fid},
+                               det_key=None if label in ("seed", "generic") else (c.prql, target))
 
     # (iii) the alias layer: a final select that renames every column, with aliases chosen to be confusable with source names
     def adversarial_aliases(rng, names):
@@ -155,7 +156,8 @@ def run(ctx):
                 r = {"status": "column-count" if len(names) != len(al) else "names-differ", "detail": "", "sql": a["sql"], "names": names}
                 fid = relcheck.classify(type("X", (), {"prql": p, "columns": al})(), r, target)
                 ctx.oracle_failure(fid, f"result columns {names} but the final select names them {al}",
-                                   {"prql": p, "target": target, "sql": a["sql"], "observed_columns": names, "expected_columns": al, "db": c.db, "schema": c.schema_list})
+                                   {"prql": p, "target": target, "sql": a["sql"], "observed_columns": names, "expected_columns": al, "db": c.db, "schema": c.schema_list},
+                                   det_key=None if label.endswith("seed") else (p, target))
             elif len(ctx.samples) < 5 and any(x.lower() == y.lower() and x != y for x, y in zip(al, [f.name for f in c.frames[-1]])):
                 ctx.sample({"prql": p.split("}\n", 1)[-1], "sql": a["sql"][:300], "result_columns": names})
 
@@ -190,16 +192,17 @@ def run(ctx):
                 fid = relcheck.classify(c, r, "sql." + d)
                 ctx.oracle_failure(fid, f"{d}: result columns {names} but the final frame is {expect}",
                                    {"prql": c.prql, "target": "sql." + d, "sql": a["sql"], "expanded_sql": sql2, "observed_columns": names,
-                                    "expected_columns": expect, "db": c.db, "schema": c.schema_list, "class": fid})
+                                    "expected_columns": expect, "db": c.db, "schema": c.schema_list, "class": fid},
+                                   det_key=None if label.endswith("seed") else (c.prql, d))
 
     fixed = random.Random(505)
-    rename_stream("rename", fixed, 250 if quick else 2000, SAFE)
+    rename_stream("rename", random.Random(5051), 250 if quick else 2000, SAFE)
     rename_stream("rename-seed", ctx.rng, 150 if quick else 2000, SAFE)
-    exclusion_stream("exclusion", fixed, 200 if quick else 1500)
+    exclusion_stream("exclusion", random.Random(5052), 200 if quick else 1500)
     exclusion_stream("exclusion-seed", ctx.rng, 100 if quick else 1500)
-    explore("safe", fixed, 300 if quick else 2500, SAFE)
-    explore("dup-names", fixed, 300 if quick else 2500, FULL)
-    explore("wildcards", fixed, 300 if quick else 2500, UNDECL)
+    explore("safe", random.Random(5053), 300 if quick else 2500, SAFE)
+    explore("dup-names", random.Random(5054), 300 if quick else 2500, FULL)
+    explore("wildcards", random.Random(5055), 300 if quick else 2500, UNDECL)
     explore("seed", ctx.rng, 200 if quick else 2500, FULL)
     explore("generic", ctx.rng, 100 if quick else 1000, SAFE, "sql.generic")
     ctx.obligation("oracle: result columns = final frame (all unlisted cases)", not [v for v in ctx.violations if v["kind"] == "failing-input"], "")
